@@ -18,6 +18,7 @@ import (
 type Scenario struct {
 	Name        string // unique, includes parameters
 	Family      string // scenario family (for violation keys / reporting)
+	Prop        string // property whose oracle keys ("<Prop>/…") this scenario reports; others are ignored
 	Bound       int    // deviation bound to complete (0,1,2,…)
 	PreemptCost bool
 	SelectCost  bool
@@ -38,6 +39,7 @@ type Found struct {
 	Trace    []string            `json:"trace,omitempty"`
 	Obs      []string            `json:"obs,omitempty"`
 	Parked   []vsched.ThreadInfo `json:"parked,omitempty"`
+	Wire     []string          `json:"wire,omitempty"`
 	Panic    string              `json:"panic,omitempty"`
 	Stack    string              `json:"stack,omitempty"`
 	End      string              `json:"end"`
@@ -229,6 +231,9 @@ func (x *explorer) check(prefix []int, res *vsched.Result) {
 		}
 	}
 	for _, v := range viol {
+		if x.sc.Prop != "" && !strings.HasPrefix(v.Key, x.sc.Prop+"/") && !strings.HasPrefix(v.Key, "panic|") {
+			continue
+		}
 		if x.keys[v.Key] {
 			continue
 		}
@@ -243,6 +248,9 @@ func (x *explorer) check(prefix []int, res *vsched.Result) {
 		for k := 0; k < 5; k++ {
 			r2 := vsched.Run(x.t, cfgOf(x.sc, choices, k == 0), x.sc.Run)
 			same := false
+			if k == 0 {
+				f.Wire = r2.Wire
+			}
 			for _, v2 := range r2.Violations {
 				if v2.Key == v.Key {
 					same = true
